@@ -146,6 +146,25 @@ Variable sign : list bytes -> option bytes.
 Lemma digest_comp_ok (h : bytes) : length h = 32%nat -> comp_ok (mkc 2 h).
 Proof. intros H. split; cbn [ctyp cval]; [unfold two64; lia|rewrite H; lia]. Qed.
 
+(* the encoded Interest is not larger than Init's reservation *)
+Lemma IV_size pre cfg a si est svo h :
+  length h = 32%nat -> int_fits (pre ++ [mkc 2 zeros32]) cfg (Some a) si est ->
+  (forall sv, svo = Some sv -> 0 < est /\ blen sv <= est) ->
+  (N.of_nat (length (enc_elem (5, IV (pre ++ [mkc 2 h]) cfg (Some a) si svo))) < big)%N.
+Proof.
+  intros Hhl Hfit Hsv. unfold int_fits in Hfit. apply packet_size_t; [lia|].
+  assert (Hn1 : name_len (pre ++ [mkc 2 h]) = name_len (pre ++ [mkc 2 zeros32])) by (apply name_len_digest; rewrite Hhl; reflexivity).
+  assert (Hn2 : blen (name_inner (pre ++ [mkc 2 h])) = blen (name_inner (pre ++ [mkc 2 zeros32]))).
+  { rewrite !name_inner_snoc, !blen_app, (comp_enc_digest h), (comp_enc_digest zeros32) by (exact Hhl || reflexivity).
+    f_equal. unfold blen. rewrite !app_length. f_equal. f_equal. exact Hhl. }
+  rewrite IV_unfold. rewrite int_len_ok in Hfit. unfold name_tlv, tlv in *. rewrite !blen_app in *. rewrite Hn1, Hn2.
+  rewrite <- !tlsz_enc in *.
+  destruct svo as [sv|]; cbn [oel].
+  - destruct (Hsv sv eq_refl) as [Hpos Hle]. rewrite enc_elems_one. unfold enc_elem. cbn [fst snd]. rewrite !blen_app, <- !tlsz_enc. fold (blen sv).
+    replace (0 <? est) with true in Hfit by lia. unfold tlv_len in Hfit. pose proof (tlsz_mono _ _ Hle). lia.
+  - replace (enc_elems []) with (@nil N) by reflexivity. change (blen (@nil N)) with 0. destruct (0 <? est); lia.
+Qed.
+
 Theorem interest_roundtrip_thm nm cfg app sg si est e :
   let need := match app with Some _ => true | None => false end in
   let pre := strip_digest nm in
